@@ -879,8 +879,10 @@ def scn_volume_cut(d, sizes, rank, variant="real"):
             def body_map(x):
                 params2 = env.fresh_params(junk.clone())
                 model2 = tt["Target"](params2, False)
+                fl = _fns(d)
+                dU_inv = torch.tensor([-fl["g%d" % i](*[float(v) for v in x[:d]]) for i in range(d)])  # invariant dU = −∇logp(params)
                 st = {"self": env.integrator(5), "model": model2, "parameters": params2, "momentum": x[d:].clone(),
-                      "inverse_mass_matrix": env.W, "params": x[:d].clone(), "dU": dUold.clone(), "_": 0}
+                      "inverse_mass_matrix": env.W, "params": x[:d].clone(), "dU": dU_inv, "_": 0}
                 _, loc = c.body(st)
                 return torch.cat([loc["params"].detach(), loc["momentum"].detach()])
             det = float(torch.linalg.det(_fd_jacobian(body_map, torch.cat([env.q, P]))))
@@ -952,7 +954,10 @@ class _Draws:
             def sample(self, *a, **kw):
                 t = len(outer.log)
                 if t >= len(outer.momenta):
-                    raise Undecided("more momentum draws than planned (unexpected retry inside _step)")
+                    if t >= 12:
+                        raise Undecided("more than 12 momentum draws inside one _step")
+                    # unplanned retry: hand out a further arbitrary momentum; the draw count is a claim and fails
+                    outer.momenta.append(outer.env.mk.real("p_unplanned%d" % t, (outer.env.d,), -2.0, 2.0))
                 outer.log.append((kind, self.loc, self.par, outer.env.position()))
                 outer.env.model.new_trial(t)
                 return outer.momenta[t]
@@ -1113,7 +1118,7 @@ def scn_hastings(d, sizes, rank, steps, plan, integ_kind="real", spec="inverse",
             cl.append(("eq", "draw_variance_is_M", [x * x for x in _vec(par)], Mspec))
         else:
             cl.append(("eq", "draw_covariance_is_M", [x for r in _mat(par) for x in r], [x for r in Mspec for x in r]))
-        for t in range(len(draws.log)):
+        for t in range(min(len(draws.log), n_trials)):
             cl.append(("eq", "drawn_momentum%d_not_mutated" % t, momenta[t], mom_in[t]))
         if inv == "stub":
             cl.append(("true", "inverse_taken_of_M", len(inv_log) >= 1 and all(m is env.M for m in inv_log), "%d calls" % len(inv_log)))
@@ -1290,6 +1295,8 @@ def obligations(tier, seed):
     thorough = tier == "thorough"
 
     def add(name, tag, factory, args, clause, d, **kw):
+        if factory in ("scn_hastings", "scn_kinetic"):
+            kw.setdefault("timeout", 240)
         obs.append(scenario_ob("C16", name, tag, factory, args, clause=clause, funcs=FUNCS, seed=seed, fns=_fns(d), **kw))
 
     ranks = ("diag", "dense")
@@ -1380,6 +1387,10 @@ def obligations(tier, seed):
                           "momentum update depends on the momentum (loop-cut obligation)", seed, fns=fl2))
     obs.append(_must_fail("C16.vacuity.volume.det[drift_scales_q]", "scn_volume_det", (1, (1,), 1, "diag", "drift_scales_q"),
                           "position update scales q: determinant 1.01^d", seed, fns=_fns(1)))
+    obs.append(_must_fail("C16.vacuity.energy.order[first_kick_full]", "scn_energy_order", (2, (1, 1), 2, "dense", "first_kick_full"),
+                          "ε instead of ε/2 in the first momentum step: first-order energy error", seed, fns=fl2))
+    obs.append(_must_fail("C16.vacuity.energy.order[no_relations]", "scn_energy_order", (2, (1, 1), 1, "diag", "real", False),
+                          "without ∂logp = g and the symmetric Hessian the coefficients must not vanish", seed, fns=fl2))
     obs.append(_must_fail("C16.vacuity.hastings[wrong_spec]", "scn_hastings", (2, (1, 1), "dense", 1, [None], "real", "wrong_M"),
                           "postcondition with K(p)=½pᵀMp instead of ½pᵀM⁻¹p", seed, fns=fl2))
     return obs
